@@ -80,7 +80,9 @@ class BaseNode(Node):
             value = None
         elif self.dimension or self.value_slice:
             # cast multidimensional values
-            if isinstance(value, str):
+            if isinstance(value, str) and self.keyword=='str' and not value.lstrip().startswith('['):
+                pass  # a scalar text is sliced as a Python string
+            elif isinstance(value, str):
                 value = np.array(json.loads(value), dtype=self.dtype)
             else:
                 value = np.array(value, dtype=self.dtype)
